@@ -3,6 +3,10 @@
 //!
 //! ops: `locales`, `parse_tags` (ICU oracle), `resolve` (C15), `ops` (C16), `effects_selftest` (C16).
 //!
+//! `ops` steps `sub_wired` / `wire_set` (a sub-context whose `initial_locale` is a caller-owned `RwSignal`, and a write to
+//! that signal) exist in the `effects` build only: the `RenderEffect` that forwards the signal into the sub-context is
+//! inert under plain `ssr`; the plain build answers `bad_op` to a sequence that contains them.
+//!
 //! Two builds: plain (`ssr` only: `Effect::new` / `RenderEffect::new` are inert, only `Effect::new_isomorphic` runs) and
 //! `--features effects` (reactive_graph's `effects`: effects run natively on the deterministic executor of `exec.rs`, as
 //! they do in the browser with `csr` / `hydrate`), each in its own target dir.
@@ -402,8 +406,15 @@ fn ops(req: &Value) -> Value {
         Some(Value::Bool(b)) => *b,
         Some(o) => panic!("field drain_each: expected bool, got {o}"),
     };
+    if !cfg!(feature = "effects") {
+        if let Some(w) = steps.iter().filter_map(|s| s["op"].as_str()).find(|o| matches!(*o, "sub_wired" | "wire_set")) {
+            return json!({"bad_op": format!("step op {w} needs the effects build of ctx_h (the wire is inert under plain ssr)")});
+        }
+    }
     let root_owner = Owner::new();
     let mut views: Vec<View> = Vec::new();
+    // the caller-owned initial-locale signals of the wired sub-contexts, in creation order (= the model's wire ids)
+    let mut wires: Vec<RwSignal<Locale>> = Vec::new();
     let mut closures: Vec<Box<dyn Fn() -> String>> = Vec::new();
     let mut owners: Vec<Owner> = Vec::new();
     let mut obs: Vec<Value> = Vec::new();
@@ -456,6 +467,37 @@ fn ops(req: &Value) -> Value {
                 views.push(view0(ctx));
                 reps.push(views.len() - 1);
                 json!({"view": views.len() - 1})
+            }
+            // a sub-context with a WIRED initial locale: the caller keeps an `RwSignal` holding `locale` and hands it to
+            // the public `init_i18n_subcontext_with_options(Some(signal), ..)` (what `init_i18n_subcontext(Some(signal))`
+            // and `<I18nSubContextProvider initial_locale=signal>` call); created like `sub`, under any existing context
+            "sub_wired" => {
+                let parent = match s.get("parent") {
+                    None | Some(Value::Null) => None,
+                    Some(_) => Some(view_at(&views, s, "parent")),
+                };
+                let l = locale_of(s["locale"].as_str().expect("locale"));
+                // the signal belongs to the caller: it lives in the harness' root owner, not in the sub-context's
+                let w = root_owner.with(|| RwSignal::new(l));
+                let child = root_owner.with(|| Owner::current().unwrap().child());
+                let ctx = child.with(|| {
+                    if let Some(p) = parent {
+                        provide_context((views[p].base)());
+                    }
+                    init_i18n_subcontext_with_options::<Locale>(Some(w.into()), None, None, Some(lang_opts(None)))
+                });
+                owners.push(child);
+                wires.push(w);
+                views.push(view0(ctx));
+                reps.push(views.len() - 1);
+                json!({"view": views.len() - 1, "wire": wires.len() - 1})
+            }
+            // the caller writes the wired signal (`RwSignal::set`); nothing else happens in this turn of the event loop
+            "wire_set" => {
+                let i = s["wire"].as_u64().expect("wire") as usize;
+                assert!(i < wires.len(), "wire index {i} out of range");
+                wires[i].set(locale_of(s["locale"].as_str().expect("locale")));
+                Value::Null
             }
             "make_memo" => {
                 let v = view_at(&views, s, "view");
@@ -641,6 +683,7 @@ fn ops(req: &Value) -> Value {
     let fin: Vec<Value> = views.iter().map(|v| json!((v.get_untracked)().as_str())).collect();
     drop(closures);
     drop(memos);
+    drop(wires);
     drop(kept);
     drop(tree);
     drop(views);
